@@ -42,6 +42,11 @@ pub struct Profile {
     pub w_clear: u32,
     pub w_reserve: u32,
     pub w_roundtrip: u32,
+    pub w_grow: u32,
+    /// bring a slot to the brink of a generation-counter width
+    pub w_churn_to: u32,
+    /// grow size classes: (weight, lo, hi)
+    pub grow: &'static [(u32, u32, u32)],
     // selector weights
     pub s_live: u32,
     pub s_removed: u32,
@@ -54,6 +59,12 @@ pub struct Profile {
     pub deep: DeepCfg,
 }
 
+/// a ladder of sizes: small, past 16, past 64 / 128, past 256, past 1024
+const GROW_STD: &[(u32, u32, u32)] = &[(20, 2, 10), (8, 17, 40), (6, 60, 135), (4, 250, 400), (1, 1030, 1100)];
+/// C13: arenas whose capacity exceeds 4096
+const GROW_C13: &[(u32, u32, u32)] = &[(20, 2, 10), (6, 17, 135), (2, 250, 400), (1, 4100, 5200)];
+/// reaches slot indices beyond u16
+pub const GROW_XL: &[(u32, u32, u32)] = &[(2, 2, 10), (1, 250, 400), (3, 66_000, 70_000)];
 const CHURN_SMALL: &[(u32, u32, u32)] = &[(1, 1, 6)];
 const CHURN_C17: &[(u32, u32, u32)] = &[(8, 1, 6), (4, 100, 300), (1, 32_766, 32_770)];
 const CHURN_C16: &[(u32, u32, u32)] = &[(10, 1, 6), (1, 32_766, 32_770)];
@@ -76,6 +87,9 @@ impl Profile {
             w_clear: 0,
             w_reserve: 0,
             w_roundtrip: 0,
+            w_grow: 2,
+            w_churn_to: 0,
+            grow: GROW_STD,
             s_live: 50,
             s_removed: 8,
             s_rel: 42,
@@ -93,6 +107,7 @@ impl Profile {
         match prop {
             "C01" => {
                 p.name = "C01";
+                p.w_churn_to = 1;
                 p.w_churn = 1;
                 p.deep.pairs = true;
                 p.deep.unary = true;
@@ -101,6 +116,7 @@ impl Profile {
             }
             "C02" => {
                 p.name = "C02";
+                p.w_churn_to = 1;
                 p.w_insert = 50;
                 p.s_rel = 60;
                 p.deep.pairs = true;
@@ -110,6 +126,7 @@ impl Profile {
             }
             "C03" => {
                 p.name = "C03";
+                p.w_churn_to = 1;
                 p.w_insert = 50;
                 p.w_detach = 8;
                 p.deep.pairs = true;
@@ -119,6 +136,7 @@ impl Profile {
             }
             "C04" => {
                 p.name = "C04";
+                p.w_churn_to = 1;
                 p.w_remove = 14;
                 p.w_remove_subtree = 9;
                 p.deep.unary = true;
@@ -126,6 +144,7 @@ impl Profile {
             }
             "C05" => {
                 p.name = "C05";
+                p.w_churn_to = 1;
                 p.w_insert = 45;
                 p.s_removed = 14;
                 p.deep.pairs = true;
@@ -135,6 +154,7 @@ impl Profile {
             }
             "C06" => {
                 p.name = "C06";
+                p.w_churn_to = 3;
                 p.w_churn = 10;
                 p.w_remove = 14;
                 p.w_remove_subtree = 6;
@@ -147,6 +167,7 @@ impl Profile {
             }
             "C07" => {
                 p.name = "C07";
+                p.w_churn_to = 1;
                 p.w_new = 22;
                 p.w_append_value = 14;
                 p.w_remove = 16;
@@ -160,6 +181,7 @@ impl Profile {
             }
             "C08" => {
                 p.name = "C08";
+                p.w_churn_to = 1;
                 p.w_set = 10;
                 p.w_itermut = 3;
                 p.w_remove = 12;
@@ -194,6 +216,7 @@ impl Profile {
             }
             "C12" => {
                 p.name = "C12";
+                p.w_churn_to = 1;
                 p.w_remove = 16;
                 p.w_remove_subtree = 14;
                 p.w_insert = 35;
@@ -209,6 +232,8 @@ impl Profile {
             }
             "C13" => {
                 p.name = "C13";
+                p.grow = GROW_C13;
+                p.w_grow = 3;
                 p.w_clear = 2;
                 p.w_reserve = 2;
                 p.w_remove = 12;
@@ -313,6 +338,14 @@ pub fn op_strategy(p: &Profile) -> BoxedStrategy<Op> {
     add(p.w_clear, Just(Op::Clear).boxed());
     add(p.w_reserve, (0u16..64).prop_map(|k| Op::Reserve { k }).boxed());
     add(p.w_roundtrip, Just(Op::Roundtrip).boxed());
+    {
+        let g: Vec<(u32, BoxedStrategy<u32>)> = p.grow.iter().map(|&(w, lo, hi)| (w, (lo..=hi).boxed())).collect();
+        add(p.w_grow, (usel.clone(), proptest::strategy::Union::new_weighted(g), 0u8..7).prop_map(|(under, n, shape)| Op::Grow { under, n, shape }).boxed());
+        add(
+            p.w_churn_to,
+            (usel.clone(), prop_oneof![6 => Just(32_767u32), 2 => Just(127u32), 2 => Just(255u32), 1 => Just(257u32), 1 => Just(65_535u32)], 0u8..3).prop_map(|(x, limit, left)| Op::ChurnTo { x, limit, left }).boxed(),
+        );
+    }
     proptest::strategy::Union::new_weighted(alts).boxed()
 }
 
@@ -372,7 +405,8 @@ pub fn decode_bytes(bytes: &[u8], max_ops: usize) -> Vec<Op> {
                 27 => Op::IterMutAdd { d: c.u8()? as u32 },
                 28 => Op::Churn { x: Sel::Live(c.u16()?), cycles: (c.u8()? % 8) as u32 + 1 },
                 29 | 30 => Op::Probe { seed: c.u8()? as u64 },
-                _ => match c.u8()? % 4 {
+                _ => match c.u8()? % 5 {
+                    4 => Op::Grow { under: Sel::Live(c.u16()?), n: (c.u8()? as u32 % 40) + 1, shape: c.u8()? },
                     0 => Op::Clear,
                     1 => Op::Reserve { k: c.u8()? as u16 },
                     _ => Op::Roundtrip,
